@@ -189,7 +189,7 @@ theorem reach_stable (cfg : Cfg) (forest : List Node) (f : Nat) (roots : List No
   funext r
   exact reachRoot_stable cfg forest f r hf
 
-/-! The same for the hazard predicate (guard of the serial theorem). -/
+/-! The same for the hazard predicate (shape of the repaired finding F25; formerly the guard of the serial theorem). -/
 
 mutual
 theorem hazardEntry_congr (cfg : Cfg) (forest : List Node)
